@@ -38,6 +38,11 @@ def templates():
     sub = "@move\ndef sub(m: int):\n" + PRO + "    {X}\n    return m\n\n"
     T["subroutine"] = main("    r = sub(n)\n", sub)
     T["subroutine-in-loop"] = main("    acc = 0\n    i = 0\n    for i in range(n):\n        acc = acc + sub(i)\n    return acc\n", sub)
+    # a subroutine that looks the spec up and calls a closure of its own (the closure captures the looked-up value and a parameter)
+    subclo = ("@move\ndef subclo(m: int):\n" + PRO + "    w = spec.get_int_constant(constant_id=\"rows\")\n    def inner(k: int):\n        {X}\n        return k + m + w\n"
+              "    return inner(2)\n\n")
+    T["subroutine-with-lookup-calls-its-own-closure"] = main("    r = subclo(n)\n    return r\n", subclo)
+    T["subroutine-with-lookup-calls-its-own-closure-in-loop"] = main("    acc = 0\n    i = 0\n    for i in range(n):\n        acc = acc + subclo(i)\n    return acc\n", subclo)
     rec = "@move\ndef rec(m: int):\n" + PRO + "    if m > 0:\n        return rec(m - 1)\n    {X}\n    return 0\n\n"
     T["recursive-subroutine"] = main("    r = rec(n)\n", rec)
     T["closure-called"] = main("    def inner(k: int):\n        {X}\n        return k\n    r = inner(n)\n")
